@@ -149,12 +149,20 @@ func (c *CAS) sortedKeys() []string {
 	return ks
 }
 
-// GetAll returns the pairs whose key matches the pattern, sorted by key; bad reports a
-// malformed pattern (then the answer is not modelled).
-func (c *CAS) GetAll(pattern string) (ps []pairJ, bad bool) {
+// GetAll returns the pairs whose key matches the pattern, sorted by key; unmodelled reports a
+// malformed pattern, or a pattern/key combination on which Go's path.Match departs from its
+// own documentation (see byteSkipQuirk); then only replica agreement is judged.
+func (c *CAS) GetAll(pattern string) (ps []pairJ, unmodelled bool) {
 	toks, ok := parseGlob(pattern)
 	if !ok {
 		return nil, true
+	}
+	if singleAfterStar(toks) {
+		for k := range c.M {
+			if byteSkipQuirk(toks, k) {
+				return nil, true
+			}
+		}
 	}
 	ps = []pairJ{}
 	for _, k := range c.sortedKeys() {
@@ -324,6 +332,39 @@ func parseGlob(p string) ([]gtok, bool) {
 		}
 	}
 	return out, true
+}
+
+// singleAfterStar: a '?' or a character class follows a '*' somewhere in the pattern.
+func singleAfterStar(t []gtok) bool {
+	star := false
+	for _, x := range t {
+		switch x.kind {
+		case tStar:
+			star = true
+		case tAny, tClass:
+			if star {
+				return true
+			}
+		}
+	}
+	return false
+}
+
+// byteSkipQuirk: path.Match documents '?' as "any single non-/ character", but its '*' skips
+// single BYTES, so after a '*' a '?' or a class can be matched against the tail of a
+// multi-byte character: path.Match("*??", "\U0001F600") is true. MapStore.GetAll documents
+// "the syntax of patterns is the same as in path.Match" and calls it, so this is Go's behaviour,
+// not regatta's; the model does not take sides on such pattern/name pairs.
+func byteSkipQuirk(t []gtok, name string) bool {
+	if !singleAfterStar(t) {
+		return false
+	}
+	for i := 0; i < len(name); i++ {
+		if name[i] >= utf8.RuneSelf {
+			return true
+		}
+	}
+	return false
 }
 
 func globMatch(t []gtok, s []rune) bool {
